@@ -1712,6 +1712,17 @@ func ruleC05Resolve(id string) func(*Checker) {
 					}
 				}
 			})
+			// ... or it is one of several results: a string result of a success return
+			for _, r := range returnsOf(fn) {
+				if !mayReturnNilErr(r) {
+					continue
+				}
+				for _, rv := range r.Results {
+					if isStringType(rv.Type()) && (canon(rv) == canon(lst.Call.Args[0]) || sameLoc(rv, lst.Call.Args[0])) {
+						held = true
+					}
+				}
+			}
 			c.check(held, id, name, "result holds the examined path", p.Pos(lst.Pos()), "a field of the result is set to the very path handed to Lstat", "no field of the result holds the path that was examined (another same-typed variable — the root, the link's own path — is stored in its place): the caller walks the wrong directory, so the out-of-tree directory is left out, or the source is walked again")
 			c.check(len(isLink) > 0, id, name, "chains are followed", p.Pos(lst.Pos()), "the Lstat result is tested for ModeSymlink", "the resolved path is never tested for being a link itself: a link to a link is stored with the intermediate link's info and dropped from the slug")
 			for i, r := range successReturns(fn) {
